@@ -368,4 +368,111 @@ theorem answers_of_same_survivors {R F : Router} {T T' : Str → Prop} (hR : EIn
         rw [matchPat_view hR.inv, matchPat_view hF.inv, hroutes]
 
 
+/-! ### the router rebuilt from the survivors satisfies the invariant -/
+
+theorem foldl_einv_gen {α} (f : Router → α → Router) (l : List α) (P : α → Prop)
+    (hf : ∀ F a, P a → EInv F (fun _ => False) → EInv (f F a) (fun _ => False))
+    (hl : ∀ a ∈ l, P a) (F : Router) (h : EInv F (fun _ => False)) :
+    EInv (l.foldl f F) (fun _ => False) := by
+  induction l generalizing F with
+  | nil => exact h
+  | cons a as ih =>
+    exact ih (fun x hx => hl x (by simp [hx])) _ (hf F a (hl a (by simp)) h)
+
+theorem EInv.plant {F : Router} (h : EInv F (fun _ => False)) (r : Route) (hn : NoLitTok r.syms)
+    (hs : NoStar r.syms) : EInv (F.plant r) (fun _ => False) := by
+  unfold Router.plant
+  exact foldl_einv_gen _ r.methods (fun _ => True)
+    (fun F' m _ h' => h'.addParsed _ ⟨r.syms, m.2.params, r.symsOut⟩ hn hs) (fun _ _ => trivial) _
+    (h.addParsed _ ⟨r.syms, r.params, r.symsOut⟩ hn hs)
+
+theorem EInv.plantHook {F : Router} (h : EInv F (fun _ => False)) (q : List Sym) (hp : HookPair)
+    (hn : NoLitTok q) : EInv (F.plantHook q hp) (fun _ => False) := by
+  unfold Router.plantHook
+  have h1 : EInv (match hp.simple with
+      | some hk => (F.addHookParsed ⟨q, [], q⟩ hk false).1
+      | none => F) (fun _ => False) := by
+    cases hp.simple with
+    | none => exact h
+    | some hk => exact h.addHookParsed ⟨q, [], q⟩ hk false hn
+  cases hp.partialHook with
+  | none => exact h1
+  | some hk => exact h1.addHookParsed ⟨q, [], q⟩ hk true hn
+
+mutual
+theorem hookListN_mem (enc : HookPair → Nat) (pre : List Sym) (n : Node) (x : List Sym × HookPair)
+    (hx : x ∈ hookListN pre n) : ∃ e ∈ hdenN enc n, x.1 = pre ++ e.pat := by
+  match n with
+  | .mk k d pk f h lits tok =>
+    simp only [hookListN, List.mem_append] at hx
+    simp only [hdenN, gN, List.mem_append]
+    rcases hx with (hx | hx) | hx
+    · cases h with
+      | none => simp [hookOwn] at hx
+      | some hp =>
+        simp only [hookOwn, List.mem_singleton] at hx
+        exact ⟨⟨[], enc hp, []⟩, Or.inl (Or.inl (by simp [ownH])), by simp [hx]⟩
+    · obtain ⟨e, he, hq⟩ := hookListL_mem enc pre lits x hx
+      exact ⟨e, Or.inl (Or.inr he), hq⟩
+    · obtain ⟨e, he, hq⟩ := hookListT_mem enc pre tok x hx
+      exact ⟨e, Or.inr he, hq⟩
+theorem hookListT_mem (enc : HookPair → Nat) (pre : List Sym) (t : Option Node) (x : List Sym × HookPair)
+    (hx : x ∈ hookListT pre t) : ∃ e ∈ gT (ownH enc) t, x.1 = pre ++ e.pat := by
+  match t with
+  | none => simp [hookListT] at hx
+  | some t0 =>
+    simp only [hookListT] at hx
+    obtain ⟨e, he, hq⟩ := hookListN_mem enc _ t0 x hx
+    exact ⟨e.under [Sym.tok t0.filter], by simp only [gT, List.mem_map]; exact ⟨e, he, rfl⟩,
+      by rw [hq]; simp⟩
+theorem hookListL_mem (enc : HookPair → Nat) (pre : List Sym) (ks : List Node) (x : List Sym × HookPair)
+    (hx : x ∈ hookListL pre ks) : ∃ e ∈ gL (ownH enc) ks, x.1 = pre ++ e.pat := by
+  match ks with
+  | [] => simp [hookListL] at hx
+  | k :: ks =>
+    simp only [hookListL, List.mem_append] at hx
+    simp only [gL, List.mem_append, List.mem_map]
+    rcases hx with hx | hx
+    · obtain ⟨e, he, hq⟩ := hookListN_mem enc _ k x hx
+      exact ⟨e.under (litSyms k.key), Or.inl ⟨e, he, rfl⟩, by rw [hq]; simp [litSyms]⟩
+    · obtain ⟨e, he, hq⟩ := hookListL_mem enc pre ks x hx
+      exact ⟨e, Or.inr he, hq⟩
+end
+
+/-- **the router rebuilt from the survivors is a legitimate router state**: every registration
+of `Router.fresh` keeps the invariant, nothing in it is unspecified -/
+theorem fresh_einv {R : Router} {T : Str → Prop} (h : EInv R T) : EInv R.fresh (fun _ => False) := by
+  unfold Router.fresh
+  have hroute : ∀ x ∈ R.routes, ∀ r, R.obj? x.2 = some r → NoLitTok r.syms ∧ NoStar r.syms := by
+    intro x hx r hr
+    obtain ⟨r0, hr0, hps⟩ := h.inv.keys x.1 x.2 hx
+    rw [hr] at hr0; cases hr0
+    have he : (⟨r.syms, x.2, r.params⟩ : Rule) ∈ denote R.tree :=
+      (h.inv.den _).mpr ((mem_rules R _).mpr ⟨x.1, x.2, r, hx, hr, rfl⟩)
+    exact ⟨h.inv.notok _ he, h.nostar _ he⟩
+  have hname : ∀ x ∈ R.named, ∀ r, R.obj? x.2 = some r → NoLitTok r.syms ∧ NoStar r.syms := by
+    intro x hx r hr
+    obtain ⟨r0, hr0, hin⟩ := h.named x.1 x.2 hx
+    rw [hr] at hr0; cases hr0
+    exact hroute _ hin r hr
+  refine foldl_einv_gen _ _ (fun x => NoLitTok x.1) (fun F x hx hF => hF.plantHook x.1 x.2 hx) ?_ _ ?_
+  · intro x hx
+    obtain ⟨e, he, hq⟩ := hookListN_mem encPair [] R.tree x hx
+    rw [hq, List.nil_append]
+    exact h.hnotok encPair e he
+  · refine foldl_einv_gen _ _ (fun x => x ∈ R.named) ?_ (fun _ hx => hx) _ ?_
+    · intro F x hx hF
+      cases hr : R.obj? x.2 with
+      | none => simpa [hr] using hF
+      | some r =>
+        simp only [hr]
+        exact hF.addParsed _ ⟨r.syms, r.params, r.symsOut⟩ (hname x hx r hr).1 (hname x hx r hr).2
+    · refine foldl_einv_gen _ _ (fun x => x ∈ R.routes) ?_ (fun _ hx => hx) _ einv_init
+      intro F x hx hF
+      cases hr : R.obj? x.2 with
+      | none => simpa [hr] using hF
+      | some r =>
+        simp only [hr]
+        exact hF.plant r (hroute x hx r hr).1 (hroute x hx r hr).2
+
 end Ombott.Router
